@@ -37,8 +37,12 @@ def run(ctx, rule="TYPE-1"):
             env = dict(os.environ, CARGO_TARGET_DIR=os.path.join(target, "t"), CARGO_NET_OFFLINE="true")
             env.pop("RUSTC_WRAPPER", None)
             env.pop("RUSTFLAGS", None)
-            r = subprocess.run(["cargo", "+nightly", "test", "--doc", "--offline"], cwd=wit, env=env, stdout=subprocess.PIPE, stderr=subprocess.STDOUT, text=True)
-            out = r.stdout
+            # the harness occasionally fails to start under heavy load (no doctest line at all): that is not a verdict, try again
+            for attempt in range(3):
+                r = subprocess.run(["cargo", "+nightly", "test", "--doc", "--offline"], cwd=wit, env=env, stdout=subprocess.PIPE, stderr=subprocess.STDOUT, text=True)
+                out = r.stdout
+                if re.search(r"^test src/lib\.rs - ", out, re.M):
+                    break
         finally:
             shutil.rmtree(target, ignore_errors=True)
         tests = re.findall(r"^test src/lib\.rs - (\w+) \(line (\d+)\)( - compile fail| - compile)? \.\.\. (\w+)", out, re.M)
